@@ -523,6 +523,47 @@ func c09Extra(tier string) []fw.Scenario {
 		{"Just|Retry", mkObs(func() ro.Observable[int] { return ro.Retry[int]()(ro.Just(1)) })},
 	}
 	var scns []fw.Scenario
+	// the concurrent drivers of C02 and C05, judged by the context clauses: a context can also be lost in
+	// a window between two goroutines (every subscription of those drivers carries the subscription marker)
+	ctxOracle := func(recs []*h.Rec, r *vrt.Result) []fw.Violation {
+		var out []fw.Violation
+		for _, rec := range recs {
+			for _, en := range rec.Log {
+				kind := [...]string{"next", "error", "complete"}[en.K]
+				if en.CtxNil {
+					return append(out, fw.V("concurrent/any/nil-context/"+kind, fmt.Sprintf("observer %s: the %s callback received a nil context (trace [%s])", rec.Name, kind, rec.Trace())))
+				}
+				if en.Sub != "sub" && rec.Name == "out" {
+					return append(out, fw.V("concurrent/any/subscription-value-lost/"+kind, fmt.Sprintf("observer %s: the value attached at SubscribeWithContext is not visible in the %s callback (%s; trace [%s])", rec.Name, kind, en.Ev.Short(), rec.Trace())))
+				}
+			}
+		}
+		return out
+	}
+	for _, prop := range []string{"C02", "C05"} {
+		for _, sc := range Registry[prop](tier) {
+			sc := sc
+			if prop == "C05" && !strings.HasPrefix(sc.ID, "C05/conc/") {
+				continue
+			}
+			if prop == "C02" && (!strings.HasSuffix(sc.ID, "/bare") || strings.Contains(sc.ID, "Subject/")) {
+				continue // subjects are hot: their values carry the producer's context, not the subscriber's
+			}
+			orig := sc.Run
+			grp := sc.Group
+			scns = append(scns, fw.Scenario{ID: "C09/conc/" + sc.ID, Group: sc.Group, Run: func(c *fw.Ctx) {
+				fw.AltCheck = func(recs []*h.Rec, r *vrt.Result) []fw.Violation {
+					vs := ctxOracle(recs, r)
+					for i := range vs {
+						vs[i].Signature = strings.Replace(vs[i].Signature, "/any/", "/"+grp+"/", 1)
+					}
+					return vs
+				}
+				defer func() { fw.AltCheck = nil }()
+				orig(c)
+			}})
+		}
+	}
 	for _, p := range progs {
 		p := p
 		scns = append(scns, fw.Scenario{ID: "C09/creation/" + p.name, Group: "creation", Run: func(c *fw.Ctx) {
